@@ -39,7 +39,7 @@ func c02Build() *c02World {
 		if boot {
 			return kit.M{"attachments": kit.L{att(kit.Leaf, "", "b", "1"), att(kit.Widget, "", "c", "1"), att(kit.Leaf, "", "d", "1")}}
 		}
-		return kit.M{"attachments": kit.L{att(kit.Leaf, "", "a", "2"), att(kit.Leaf, "", "b", "2"), att(kit.Widget, "", "c", "2"), att(kit.Leaf, "", "f", "2"), att(kit.Leaf, "", "h", "2")}}
+		return kit.M{"attachments": kit.L{kit.Owners(att(kit.Leaf, "", "a", "2"), kit.OwnerRef(kit.Thing, "p", "puid", false)), att(kit.Leaf, "", "b", "2"), att(kit.Widget, "", "c", "2"), att(kit.Leaf, "", "f", "2"), att(kit.Leaf, "", "h", "2")}}
 	}))
 	w.DeliverAll()
 	key := dkey(p)
